@@ -91,6 +91,14 @@ impl Buildpack for TB {
         let fmts = [SbomFormat::CycloneDxJson, SbomFormat::SpdxJson, SbomFormat::SyftJson];
         let mut b = BuildResultBuilder::new();
         if has("launch") { b = b.launch(LaunchBuilder::new().process(ProcessBuilder::new(process_type!("web"), ["witness"]).build()).build()); }
+        if has("richlaunch") {
+            // C20: enough labels / processes / slices that any order leak (hash-map iteration) shows between two processes
+            let mut lb = LaunchBuilder::new();
+            for (i, t) in ["web", "worker", "console", "release"].iter().enumerate() { lb.process(ProcessBuilder::new(t.parse().unwrap(), [format!("cmd-{i}")]).arg(format!("arg-{i}")).default(i == 0).build()); }
+            for i in 0..8 { lb.label(libcnb::data::launch::Label { key: format!("org.example.label-{}", (i * 5) % 8), value: format!("value-{i}") }); }
+            for i in 0..3 { lb.slice(libcnb::data::launch::Slice { path_globs: vec![format!("dir-{i}/**"), format!("*.{i}")] }); }
+            b = b.launch(lb.build());
+        }
         if has("store") { let mut t = toml::Table::new(); t.insert("witness".into(), toml::Value::String("stored".into())); b = b.store(Store { metadata: t }); }
         for (i, f) in fmts.iter().enumerate() {
             if has(&format!("b{i}")) { b = b.build_sbom(Sbom::from_bytes(f.clone(), format!("build-{i}").into_bytes())); }
